@@ -9,6 +9,7 @@
   mirrored step by step (`…_partial`: per-input certification by a proven-sound checker).
 -/
 import M4riProofs.Checkers
+import M4riProofs.GaussOK
 namespace M4ri.Props.C03
 open M4ri M4ri.BMat
 
@@ -32,5 +33,12 @@ theorem pluq_reveals_rank {A S : BMat} {P Q : Array Nat} {r : Nat} (h : IsPLUQ A
 theorem ple_rank_profile_partial {A S : BMat} {P Q : Array Nat} {r : Nat} (hA : A.WF)
     (h : checkPLE A S P Q r = true) (hg : GaussOK A) :
     r = A.rank ∧ (List.range r).map (fun i => Q.getD i 0) = A.rankProfile := checkPLE_profile hA h hg
+
+/-- unconditional: an accepted PLE output has r = rank(A) and Q[0..r) = column rank profile of A -/
+theorem ple_rank_and_profile {A S : BMat} {P Q : Array Nat} {r : Nat} (hA : A.WF) (h : checkPLE A S P Q r = true) :
+    r = A.rank ∧ (List.range r).map (fun i => Q.getD i 0) = A.rankProfile := GOK.ple_rank_profile hA h
+
+theorem pluq_rank {A S : BMat} {P Q : Array Nat} {r : Nat} (hA : A.WF) (h : checkPLUQ A S P Q r = true) :
+    r = A.rank := GOK.pluq_rank hA h
 
 end M4ri.Props.C03
